@@ -122,6 +122,9 @@ func runTermScenario(s termScenario, callers []string) termResult {
 	case "in-init":
 		strikeGate = newGate(true)
 		ctl.gates["init"] = strikeGate
+	case "first-view":
+		strikeGate = newGate(true) // the View call Run makes before the event loop starts
+		ctl.gates["view"] = strikeGate
 	case "in-filter":
 		strikeGate = newGate(true)
 		ctl.gates["filter:u0.0"] = strikeGate
@@ -143,6 +146,12 @@ func runTermScenario(s termScenario, callers []string) termResult {
 	}
 	neverGate := newGate(true)
 	cleanup = append(cleanup, neverGate.open)
+	if s.Pending == "initcmd" {
+		ctl.initCmd = func() tea.Msg { return cmdMsg{"init"} }
+	}
+	if s.Strike == "pre-cancel" {
+		cancelParent() // the context is already cancelled when Run starts
+	}
 	bigBatch := make([]tea.Cmd, 0)
 	if s.Strike == "batch" {
 		for i := 0; i < 300000; i++ {
@@ -180,7 +189,14 @@ func runTermScenario(s termScenario, callers []string) termResult {
 		go func() { defer close(ch); run.p.Send(m) }()
 		return ch
 	}
-	if s.Strike != "in-init" && s.Cause != "panic-init" {
+	if s.Strike == "first-view" {
+		if !strikeGate.waitArrived(3 * time.Second) {
+			res.note = "the first View was never called"
+			return res
+		}
+	} else if s.Strike == "pre-cancel" {
+		// nothing to wait for
+	} else if s.Strike != "in-init" && s.Cause != "panic-init" {
 		// wait until the event loop is up: a probe message gets processed
 		probe := send(userMsg{7, 0})
 		if !waitFor(3*time.Second, func() bool { return ctl.log.has("update-exit", "u7.0") }) {
@@ -312,7 +328,7 @@ func runTermScenario(s termScenario, callers []string) termResult {
 	if s.Pending == "second-kill" {
 		go run.p.Kill()
 	}
-	if s.Strike != "idle" && s.Strike != "batch" {
+	if s.Strike != "idle" && s.Strike != "batch" && s.Strike != "pre-cancel" {
 		time.Sleep(3 * time.Millisecond) // let the cause land while the callback is still in progress
 	}
 	// the in-progress user callback returns
@@ -393,6 +409,19 @@ func termMatrix(thorough bool, r *rng) []termScenario {
 			}
 		}
 	}
+	// termination before the event loop runs, with and without an Init command waiting to be handed over
+	for _, c := range []string{"kill", "ctx"} {
+		for _, st := range []string{"in-init", "first-view", "pre-cancel"} {
+			for _, p := range []string{"none", "initcmd"} {
+				for _, in := range []string{"nil", "pipe"} {
+					if st == "pre-cancel" && c != "ctx" {
+						continue
+					}
+					all = append(all, termScenario{c, st, p, in})
+				}
+			}
+		}
+	}
 	if thorough {
 		return all
 	}
@@ -431,6 +460,9 @@ func (s termScenario) valid() bool {
 		return false // the error reader is its own input
 	}
 	if s.Cause == "panic-init" && (s.Strike != "idle" || s.Pending != "none") {
+		return false
+	}
+	if (s.Strike == "first-view" || s.Strike == "pre-cancel" || s.Pending == "initcmd") && s.Cause != "kill" && s.Cause != "ctx" {
 		return false
 	}
 	if s.Strike == "in-init" && (s.Cause == "quitmsg" || s.Cause == "quitapi" || s.Cause == "interrupt" ||
@@ -603,6 +635,10 @@ func scenAPI(out *scenOut, r *rng, thorough bool) {
 		}
 	}
 	wg.Wait()
+	// start-up failure: the terminal for input cannot be opened (no controlling
+	// terminal, as in CI or under setsid). Callers parked before Run and callers
+	// arriving after it must all return.
+	ttyFail(out)
 	// "Before the program starts, Send blocks until it is running"
 	ctl := newRecCtl()
 	p := tea.NewProgram(recModel{c: ctl}, tea.WithInput(nil), tea.WithOutput(&safeBuffer{}), tea.WithoutSignalHandler())
@@ -637,4 +673,62 @@ func causeGroup(c string) string {
 		return "quit"
 	}
 	return c
+}
+
+func ttyFail(out *scenOut) {
+	if f, err := os.Open("/dev/tty"); err == nil {
+		f.Close()
+		out.record("tty-open-failure/skipped", "process has a controlling terminal: /dev/tty opens, scenario skipped")
+		return
+	}
+	ctl := newRecCtl()
+	p := tea.NewProgram(recModel{c: ctl}, tea.WithInputTTY(), tea.WithOutput(&safeBuffer{}), tea.WithoutSignalHandler())
+	type caller struct {
+		name string
+		done chan struct{}
+	}
+	var callers []caller
+	start := func(name string, f func()) {
+		c := caller{name, make(chan struct{})}
+		callers = append(callers, c)
+		go func() { defer close(c.done); f() }()
+	}
+	start("send@before", func() { p.Send(userMsg{1, 1}) })
+	start("quit@before", func() { p.Quit() })
+	start("println@before", func() { p.Println("x") })
+	start("printf@before", func() { p.Printf("%d", 1) })
+	time.Sleep(5 * time.Millisecond)
+	runDone := make(chan error, 1)
+	go func() { _, err := p.Run(); runDone <- err }()
+	var err error
+	select {
+	case err = <-runDone:
+	case <-time.After(3 * time.Second):
+		out.fail(finding{Property: "C13", Class: "new", What: "Run does not return when the input terminal cannot be opened", Input: "WithInputTTY without a controlling terminal"})
+		return
+	}
+	out.record("tty-open-failure", "WithInputTTY without a controlling terminal: Run returned "+fmt.Sprint(err))
+	if err == nil {
+		return
+	}
+	start("send@after", func() { p.Send(userMsg{1, 2}) })
+	start("quit@after", func() { p.Quit() })
+	start("println@after", func() { p.Println("y") })
+	start("printf@after", func() { p.Printf("%d", 2) })
+	start("wait@after", func() { p.Wait() })
+	var stuck []string
+	dl := time.After(1500 * time.Millisecond)
+	for _, c := range callers {
+		select {
+		case <-c.done:
+		case <-dl:
+			stuck = append(stuck, c.name)
+			dl = time.After(10 * time.Millisecond)
+		}
+	}
+	if len(stuck) > 0 {
+		out.fail(finding{Property: "C13", Class: "new", What: "calls never return after Run ended with a start-up failure (input terminal cannot be opened)",
+			Input: "NewProgram(m, WithInputTTY()) in a process without a controlling terminal; callers: " + strings.Join(stuck, ","),
+			Expected: "every call returns once the program has ended", Observed: strings.Join(stuck, ",") + " still blocked"})
+	}
 }
